@@ -311,6 +311,14 @@ Theorem C12_shared_listing_in_place_refuted :
 Proof. exact shared_listing_in_place_refuted. Qed.
 Print Assumptions C12_shared_listing_in_place_refuted.
 
+(** A build creates files under the workspace only: every file-creating
+    call of package caco3 in the current source takes its path from
+    [env.prepareOut] / the workspace's directories; none goes to a temporary
+    directory (an [os.CreateTemp("", ...)] would be a new entry of the list). *)
+Theorem C12_builds_create_inside_workspace : caco3_createsb = true.
+Proof. exact gen_caco3_creates. Qed.
+Print Assumptions C12_builds_create_inside_workspace.
+
 (** ** Patterns: Go's path.Match in full *)
 
 (** Matching is total (the recursion budget of the model always suffices)
